@@ -133,7 +133,7 @@ impl Property for C11 {
         false
     }
     fn rule(&self) -> String {
-        "schedules of 4-40 scheduler actions over two real live actors and one document (both syncing, or one of them not): dial decisions (new neighbour / sync report) by either node, sync reports handled by the real on_sync_report (heads older, equal, newer than the entry held, an unknown author (also with timestamp 0), no heads, undecodable bytes; dial exactly on news), delivery or loss of the oldest outstanding request, processing of connect-task completions (declined AlreadySyncing / NotFound, failed to connect, session end ok or failed), of accept-task completions and of declined-accept completions, each chosen among the currently enabled actions; dials are weighted down so that completions catch up; non-trivial = at least 2 dials and one session or one decline; distinct = distinct concrete schedules".into()
+        "schedules of 4-40 scheduler actions over two real live actors and one document (both syncing, or one of them not): dial decisions (new neighbour / sync report) by either node, sync reports handled by the real on_sync_report (heads older, equal, newer than the entry held, an unknown author (also with timestamp 0), no heads, undecodable bytes; dial exactly on news), delivery or loss of the oldest outstanding request, processing of connect-task completions (declined AlreadySyncing / NotFound, failed to connect, session end ok or failed), of accept-task completions (ok, session failed, connection lost while closing) and of declined-accept completions, each chosen among the currently enabled actions; dials are weighted down so that completions catch up; non-trivial = at least 2 dials and one session or one decline; distinct = distinct concrete schedules".into()
     }
     fn corpus(&self) -> Vec<(String, Vec<Op>)> {
         let acts = |v: &[&str]| -> Vec<Op> {
@@ -211,6 +211,7 @@ impl Property for C11 {
             let _ = iroh_docs::verif::take_dials();
             let mut net = Net::default();
             let mut fin_toggle = false;
+            let mut accept_fail_kind = 0usize;
             // refused sync reports not yet followed up, per node (for the follow-up specification)
             let mut pending_report = [false; 2];
             // … and whether a session that started after the report already covers it
@@ -302,10 +303,14 @@ impl Property for C11 {
                         if let Some(pos) = net.atasks[n].iter().position(|s| *s == sid) {
                             net.atasks[n].remove(pos);
                             fin_toggle = !fin_toggle;
+                            accept_fail_kind += 1;
                             let res = if fin_toggle {
                                 Ok(mk_finished(ids[other]))
-                            } else {
+                            } else if accept_fail_kind % 2 == 0 {
                                 Err(AcceptError::Sync { peer: ids[other], namespace: Some(nsid), error: anyhow::anyhow!("session failed") })
+                            } else {
+                                // the connection was lost: closing the streams fails after the session
+                                Err(AcceptError::Close { peer: ids[other], namespace: Some(nsid), error: anyhow::anyhow!("connection lost") })
                             };
                             nodes[n].coord.on_sync_via_accept_finished(res).await;
                         }
